@@ -328,4 +328,32 @@ def sampleEntry : Entry :=
     response := some ⟨lit "500", lit "O\"K", lit "0.1", [(lit "content-type", [lit "a", lit "b"])], [104, 105], lit "hi",
       some (lit "a'b"), false, lit "1.1"⟩ }
 
+/-! ## several report handlers in one run: what each report must contain
+
+Written from the property statement: "each exchange that was delivered to the reporters appears exactly once" — in
+every report that was asked for, whatever else is being written at the same time. -/
+
+/-- the events the `i`-th cassette writer was handed by the event loop: all of them, or — when a handler placed after
+    the first `p` writers raised at event `k` — those up to `k` (inclusive for writers placed before it) -/
+def deliveredTo (i : Nat) (evs : List Ev) : Option (Nat × Nat) → List Ev
+  | none => evs
+  | some (k, p) => evs.take (if i < p then k + 1 else k)
+
+/-- the exchanges in delivery order -/
+def exchanges (delivered : List Ev) : List Nat := delivered.flatMap fun e => e.getD []
+
+/-- the content of a finished report: (for a VCR cassette, the preamble once, first) then every delivered exchange
+    exactly once, in order -/
+def expectedFile (f : Fmt) (seed : Option Nat) (delivered : List Ev) : List Chunk :=
+  (match f with
+   | .vcr => [Chunk.preamble seed]
+   | .har => []) ++ (exchanges delivered).map .entry
+
+/-- judge a report read back from disk -/
+def reportOK (f : Fmt) (seed : Option Nat) (delivered : List Ev) (observed : List Chunk) : Bool :=
+  observed == expectedFile f seed delivered
+
+/-- two writers made to share one queue object (the negative witness of `shared_queue_full_false`) -/
+def sharedCfg : Nat → HCfg := fun i => ⟨if i = 0 then .vcr else .har, 0⟩
+
 end SV.Spec.C16
